@@ -6,6 +6,8 @@ forked from the pristine process, and the canonical results must be equal.
 """
 from __future__ import annotations
 
+import dataclasses
+
 import contextlib
 import gc
 import io
@@ -75,7 +77,37 @@ class SemScale:
         return ('S', self.k, ast)
 
 
-SEMS = {'none': lambda: None, 'A': SemA, 'B': SemB, 'S2': lambda: SemScale(2), 'S3': lambda: SemScale(3)}
+@dataclasses.dataclass(frozen=True)
+class SemFrozen:
+    """instances compare equal and hash alike, and still behave differently"""
+    k: int = dataclasses.field(default=0, compare=False)
+
+    def _default(self, ast, *a, **kw):
+        return ('F', self.k, ast)
+
+
+@dataclasses.dataclass
+class SemData:
+    """a plain dataclass: __eq__ without __hash__"""
+    k: int = 0
+
+    def _default(self, ast, *a, **kw):
+        return ('D', self.k, ast)
+
+
+SEMS = {'none': lambda: None, 'A': SemA, 'B': SemB, 'S2': lambda: SemScale(2), 'S3': lambda: SemScale(3),
+        'F1': lambda: SemFrozen(1), 'F2': lambda: SemFrozen(2), 'D1': lambda: SemData(1), 'D2': lambda: SemData(2)}
+
+
+def _bases():
+    from tatsu.objectmodel import Node
+
+    class BaseA(Node):
+        pass
+
+    class BaseB(Node):
+        pass
+    return {'A': BaseA, 'B': BaseB}
 
 
 def canon(x, depth=0):
@@ -118,6 +150,39 @@ def run_op(op, env):
             m = tatsu.compile(GRAMS[g], name=name, asmodel=asmodel, semantics=SEMS[sem](), **kw)
             env[var] = m
             return ('ok', m.name, type(m.semantics).__name__, m.config.ignorecase, repr(m.config.whitespace), canon(m.directives), list(m.keywords), m.pretty())
+        if kind == 'bcompile':
+            # model building configured through a BuilderConfig object that the caller does not keep
+            from tatsu.objectmodel.builder import BuilderConfig
+            _, g, name, base, var = op
+            if '__bases__' not in env:
+                env['__bases__'] = _bases()
+            bases = env['__bases__']
+            bc = BuilderConfig(basetype=bases[base])
+            m = tatsu.compile(GRAMS[g], name=name, builderconfig=bc)
+            env[var] = m
+            del bc
+            return ('ok', m.name, type(m.semantics).__name__)
+        if kind in ('bpair', 'bsingle'):
+            # two compile() calls in a row that differ only in a BuilderConfig the caller does not keep (the second object is very
+            # likely to get the address of the first), then a parse with each model.  The reference is two independent single calls.
+            from tatsu.objectmodel.builder import BuilderConfig
+            _, g, name, first, text = op[:5]
+            if '__bases__' not in env:
+                env['__bases__'] = _bases()
+            bases = env['__bases__']
+            order = [first] if kind == 'bsingle' else [first, 'B' if first == 'A' else 'A']
+            ms = []
+            for b in order:
+                bc = BuilderConfig(basetype=bases[b])
+                ms.append(tatsu.compile(GRAMS[g], name=name, builderconfig=bc))
+                del bc      # the caller's last reference goes right before the next object is created
+            out = []
+            for m in ms:
+                try:
+                    out.append(('ok', canon(m.parse(text))))
+                except ParseException as e:
+                    out.append(('fail', type(e).__name__))
+            return ('ok', *out)
         if kind == 'mparse':
             _, var, text, start, kw = op
             m = env[var]
@@ -245,7 +310,7 @@ def needed_ops(history, i):
         return [op]
     creator = None
     for prev in history[:i]:
-        if prev[0] in ('compile', 'gen') and prev[-1] == var:
+        if prev[0] in ('compile', 'gen', 'bcompile') and prev[-1] == var:
             creator = prev
     return [creator, op] if creator else [op]
 
@@ -283,7 +348,15 @@ def run_history(history):
         if msg[0] == 'DONE':
             result = msg[1]
             break
-        _send(rep_w, eval_fresh(msg[1]))
+        ops = msg[1]
+        if ops[-1][0] == 'bpair':
+            # the pair is judged against two independent fresh processes, one per compile() call
+            _, g, name, first, text = ops[-1][:5]
+            a = eval_fresh([('bsingle', g, name, first, text)])
+            b = eval_fresh([('bsingle', g, name, 'B' if first == 'A' else 'A', text)])
+            _send(rep_w, ('ok', a[1], b[1]) if a and b and a[0] == b[0] == 'ok' else ('?', a, b))
+            continue
+        _send(rep_w, eval_fresh(ops))
     os.close(req_r)
     os.close(rep_w)
     os.waitpid(pid, 0)
@@ -316,9 +389,13 @@ def gen_history(rnd):
         if c < 0.3 or not (models or parsers):
             var = f'm{step}'
             g = rnd.choice(list(GRAMS))
-            op = ('compile', g, rnd.choice([None, None, 'N1', 'N2']), rnd.choice([False, False, True]), rnd.choice(['none', 'none', 'A', 'B', 'S2', 'S3']),
+            op = ('compile', g, rnd.choice([None, None, 'N1', 'N2']), rnd.choice([False, False, True]), rnd.choice(['none', 'none', 'none', 'A', 'B', 'S2', 'S3', 'F1', 'F2', 'D1', 'D2']),
                   rnd.choice([None, None, True]), rnd.choice([None, None, None, ' ']), var)
             models[var] = g
+            if rnd.random() < 0.2:
+                g = rnd.choice(['g2', 'g6', 'g9'])
+                op = ('bcompile', g, rnd.choice([None, None, 'N1']), rnd.choice(['A', 'B']), var)
+                models[var] = g
         elif c < 0.55 and models:
             var = rnd.choice(list(models))
             g = models[var]
@@ -330,7 +407,7 @@ def gen_history(rnd):
             op = ('cparse', var, pick_text(rnd, models[var]), rnd.choice([{}, {'ignorecase': True}, {'nameguard': False}, {'parseinfo': True}]))
         elif c < 0.72:
             g = rnd.choice(list(GRAMS))
-            op = ('parse', g, pick_text(rnd, g), rnd.choice(STARTS.get(g, [None]) + [None, None]), rnd.choice([False, False, True]), rnd.choice(['none', 'none', 'A']))
+            op = ('parse', g, pick_text(rnd, g), rnd.choice(STARTS.get(g, [None]) + [None, None]), rnd.choice([False, False, True]), rnd.choice(['none', 'none', 'A', 'F1', 'F2', 'D2']))
         elif c < 0.8:
             var = f'p{step}'
             g = rnd.choice(list(GRAMS))
@@ -340,13 +417,16 @@ def gen_history(rnd):
             var = rnd.choice(list(parsers))
             g = parsers[var]
             op = ('gparse', var, pick_text(rnd, g), rnd.choice(STARTS.get(g, [None]) + [None, None]), rnd.choice([{}, {}, {'ignorecase': True}, {'parseinfo': True}, {'whitespace': ''}, {'asmodel': True}]),
-                  rnd.choice(['none', 'none', 'A', 'B']))
+                  rnd.choice(['none', 'none', 'A', 'B', 'F1', 'F2', 'D1']))
         elif c < 0.93:
             g = rnd.choice(list(GRAMS))
             op = ('bparse', g, pick_text(rnd, g), rnd.choice(['buffer', 'textlines']))
         elif c < 0.945 and models:
             var = rnd.choice(list(models))
             op = ('jsonload', var, pick_text(rnd, models[var]) if rnd.random() < 0.5 else None)
+        elif c < 0.953:
+            g = rnd.choice(['g2', 'g6', 'g9'])
+            op = ('bpair', g, rnd.choice([None, 'N1']), rnd.choice(['A', 'B']), rnd.choice(OWN_TEXTS[g]))
         elif c < 0.96:
             op = (rnd.choice(['src', 'pymodel']), rnd.choice(list(GRAMS)), rnd.choice([None, 'N1']))
         else:
@@ -356,6 +436,13 @@ def gen_history(rnd):
                 parsers.pop(v, None)
             op = ('gc', drop)
         hist.append(op)
+        if op[0] == 'bcompile' and rnd.random() < 0.6:
+            # the same call with another base class (its BuilderConfig may well get the address of the first one), then the first model again
+            hist.append(('mparse', op[-1], pick_text(rnd, op[1]), None, {}))
+            hist.append(('bcompile', op[1], op[2], 'B' if op[3] == 'A' else 'A', f'm{step}s'))
+            models[f'm{step}s'] = op[1]
+            hist.append(('mparse', op[-1], pick_text(rnd, op[1]), None, {}))
+            hist.append(('mparse', f'm{step}s', pick_text(rnd, op[1]), None, {}))
         if op[0] == 'compile' and rnd.random() < 0.35:
             # a sibling call: same grammar text and name, one other argument different; then the first object is used again
             sib = list(op)
@@ -364,6 +451,8 @@ def gen_history(rnd):
                 sib[4] = rnd.choice([x for x in ['none', 'A', 'B', 'S2', 'S3'] if x != op[4]])
                 if op[4] in ('S2', 'S3'):
                     sib[4] = 'S3' if op[4] == 'S2' else 'S2'
+                if op[4] in ('F1', 'F2', 'D1', 'D2'):
+                    sib[4] = op[4][0] + ('2' if op[4][1] == '1' else '1')
             elif which == 'asmodel':
                 sib[3] = not op[3]
             elif which == 'ic':
@@ -381,7 +470,7 @@ def gen_history(rnd):
                 start = rnd.choice(STARTS.get(g, [None]) + [None, None])
                 if op[0] == 'gen':
                     hist.append(('gparse', var, pick_text(rnd, g), start, rnd.choice([{}, {}, {'ignorecase': True}, {'parseinfo': True}, {'whitespace': ''}, {'nameguard': False}, {'asmodel': True}, {'asmodel': True}]),
-                                 rnd.choice(['none', 'none', 'A', 'B'])))
+                                 rnd.choice(['none', 'none', 'A', 'B', 'F1', 'F2', 'D1'])))
                 else:
                     hist.append(('mparse', var, pick_text(rnd, g), start, rnd.choice([{}, {}, {'ignorecase': True}, {'parseinfo': True}, {'whitespace': ''}, {'asmodel': True}])))
     return hist[:14]
